@@ -27,6 +27,9 @@ def base(dll, kind, npk, win, seed):
               dict(t=tf, s=0, op='send', a=[0, pf, ps, 6, sa, dict(seed=seed + 1, len=size + 1)])]
     horizon = tf + 5_000_000 + npk * 60000
     script += [dict(t=t, s=0, op='probe') for t in range(PROBE, horizon, PROBE)]
+    if seed % 2 == 0:
+        # the applications run cyclic timers of their own (about 1 s): serving them must not postpone the give-up of a session
+        script += [dict(t=300, s=0, op='add_timer', cid=900, delta=1_000_000, ret=True), dict(t=700, s=1, op='add_timer', cid=901, delta=930_000, ret=True)]
     script.sort(key=lambda e: e['t'])
     return dict(stacks=stacks, lat=[500], jit=[1], script=script, horizon=horizon, faults=[], tf=tf, kind=kind, dll=dll)
 
